@@ -486,8 +486,8 @@ def fix_logp(rng, a):
         if p > 2**40:
             k = min(k, 9)
         x = p**k + rng.choice([0, 0, -1, 1])
-    if x < p:
-        x = p + x     # logp is exercised on its domain a >= p >= 2 (for a < p the loop structure returns 1)
+    if rng.chance(1, 6):        # a < p: 0 (since /repo bf673c6)
+        x = rng.choice([0, 1, 2, p - 1, p // 2])
     return [x, p]
 
 
